@@ -31,9 +31,13 @@ def is_double(fr):
         return False
 
 
+def _py(v):
+    return v.item() if isinstance(v, np.generic) else v      # (a Fraction built on a NumPy integer would calculate - and wrap - in that integer's type)
+
+
 def affine_of(s):
     try:
-        return F(s.scale), F(s.bias)
+        return F(_py(s.scale)), F(_py(s.bias))
     except (TypeError, ValueError):
         return None
 
@@ -389,15 +393,17 @@ def run_case(case, ctx):
                 _try(lambda: srcf.like(dstf))
     # integer valued objects with an integer bias next to the limits of 64 bits: the value read is scale*code + bias, in python integers if need be
     if i % 50 == 7:
-        for code, b_ in ((2048, 2 ** 63 - 2 ** 11), (-2048, -2 ** 63), (100, 2 ** 63), (5, 2 ** 62)):
-            xb = _try(lambda: Fxp(code + b_, True, 16, 0, bias=b_))
+        for code, b_ in ((2048, 2 ** 63 - 2 ** 11), (-2048, -2 ** 63), (100, 2 ** 63), (5, 2 ** 62), (2048, np.int64(2 ** 63 - 2 ** 11)), (7, np.int64(2 ** 62))):
+            xb = _try(lambda: Fxp(code + int(b_), True, 16, 0, bias=b_))
             if xb is not None:
                 _try(lambda: xb())
                 _try(lambda: xb.get_val())
-            xa = _try(lambda: Fxp([code + b_, b_], True, 16, 0, bias=b_))
+            xa = _try(lambda: Fxp([code + int(b_), int(b_)], True, 16, 0, bias=b_))
             if xa is not None:
                 _try(lambda: xa.get_val())
                 _try(lambda: xa.get_val(index=0))
+                _try(lambda: xa[0]())
+                _try(lambda: xa.get_val(item=0))
         ctx.floor_hit(('read-huge-integer-bias',))
     arr = [float(v) for v in (vs * 3)[:3]]
     a = _try(lambda: Fxp(np.array(arr), s, w, nf, **kw))
